@@ -23,7 +23,9 @@ def table_shapes(max_points, max_objs, max_add=2, max_rem=2, reuse=True, empty_p
     def rec(points, active, nobj, used_inactive, npts):
         i = len(points)
         last = (i == npts - 1)
-        if ordered_rem_only:
+        if ordered_rem_only and last:
+            rem_choices = [list(active)]
+        elif ordered_rem_only:
             rem_choices = []
             for n in range(0, min(len(active), max_rem) + 1):
                 for sub in itertools.combinations(active, n):
